@@ -1192,11 +1192,14 @@ func indexOfKid(k kidSpec) int {
 func (g *gen) converge(i int, seed uint64) *scenario {
 	r := g.r
 	sc := g.basic("converge", i, seed)
+	for tries := 0; tries < 50 && sc.hasFeature("selector-empty-content"); tries++ {
+		sc = g.basic("converge", i, seed) // a parent the controller refuses has nothing to converge to
+	}
 	// a population that the statement covers: no foreign object on a desired name, nothing stuck terminating
 	var setup []extOp
 	var feats []string
 	for _, op := range sc.Setup {
-		if op.Op == "steal" || op.Op == "deleting" || op.Op == "relabel" {
+		if op.Op == "steal" || op.Op == "deleting" || op.Op == "relabel" || op.Op == "relabel-merge" {
 			continue // would leave a foreign (unadoptable) object on a desired child's name
 		}
 		if op.Op == "create" && sc.Ctl.GenSelector && len(op.Name) > 0 && op.Name[0] == 'c' {
@@ -1348,6 +1351,18 @@ func generateScenarios(prop string, seed uint64, n int, adv bool) []*scenario {
 		r, s := root.Fork()
 		g := &gen{r: r, adv: adv, oddMethods: prop == "C06", twins: prop == "C06" || prop == "C03" || prop == "C02" || prop == "C04"}
 		switch {
+		case (prop == "C12" && i%12 == 1) || (prop == "C04" && i%16 == 3):
+			// orphans to adopt, and the live read of the parent that must precede an adoption fails: gone, or a
+			// transient server error (the cache is no substitute: it may show a parent that is being deleted)
+			sc := g.adoptrace(i, s)
+			for ri := range sc.Rounds {
+				sc.Rounds[ri].MidOps = nil
+			}
+			code := []J{{"code": 404, "reason": "NotFound"}, {"code": 500, "reason": "InternalError"}, {"code": 503, "reason": "ServiceUnavailable"},
+				{"code": 429, "reason": "TooManyRequests"}, {"code": 504, "reason": "Timeout"}}[r.Intn(5)]
+			sc.Rounds[0].FaultOn = append(sc.Rounds[0].FaultOn, faultOn{Verb: "get", Kind: sc.Ctl.ParentKind, Nth: 0, Fault: code})
+			sc.Features = append(sc.Features, "parent-recheck-read-fails")
+			out = append(out, sc)
 		case (prop == "C02" || prop == "C04") && i%16 == 10:
 			// a selector of labels AND an expression; orphans and owned children that satisfy the labels and fail
 			// the expression (never to be adopted; to be released)
